@@ -152,7 +152,10 @@ Inductive sop : Type :=
    replacing value number [field] by the boundary value class [cls] (cls = 99: unchanged; cls >= 20: drop cls-20 values) *)
 | OForwardSmp (src : N) (idx : N) (sender : N) (now : N) (field : N) (cls : N)
 (* no call: observe which secrets party [who] still holds *)
-| OProbe (who : N).
+| OProbe (who : N)
+(* a message built outside the conversation from party [who]'s secrets (the independent reference sender): what the
+   call would emit is logged as [who]'s output, [who]'s state does not advance *)
+| OForge (who : N) (now : N) (c : call).
 
 (* ---------------- observations ---------------- *)
 Definition tag_class (s : sys) (t from : N) : N :=
@@ -253,6 +256,14 @@ Definition run_op (s : sys) (o : sop) : sys * val :=
       let w := nth (N.to_nat idx) (nth (N.to_nat src - 1) (s_outs s) []) junk_wire in
       apply_call s sender now (CSendTLVs (map (mut_smp_tlv field cls) (smp_tlvs_of w)))
   | OProbe who => (s, secrets_obs (nth_conv s who))
+  | OForge who now c =>
+      let i := (N.to_nat who - 1)%nat in
+      let '(_, r) := step now (nth_conv s who) c in
+      ({| s_convs := s_convs s; s_outs := set_nth (s_outs s) i (nth i (s_outs s) [] ++ r_out r); s_disclosed := s_disclosed s |},
+       VL (map (fun w => match w with
+                         | WEnc ver _ _ (EData d) => let f := d_fields d in VL [VN 4; VN ver; VN (af_flag f); VN (af_sk f); VN (af_rk f); VN (af_ctr f)]
+                         | _ => VL [VN 9]
+                         end) (r_out r)))
   end.
 
 Fixpoint run_ops (s : sys) (ops : list sop) : list val :=
